@@ -464,6 +464,19 @@ def slice_next(I, st, fr, t, a):
         if owned:
             return some(item[1], ty), st
         return some(Ref(cont.cell, cont.path + (('idx', BV.const(pos, 64)),), False), ty), st
+    if item[0] == 'bulk' and not owned and inbulk is None and I.bulk_by_ref_as_exists:
+        # `for x in list.iter() { if p(x) { return .. } }` over a symbolic bulk: one symbolic element, present iff B != 0
+        from .mai import ForkReq, State
+        g = I.nonzero_bit(item[1])
+        s_yes = State(dict(st.store), st.pc)
+        s_no = State(dict(st.store), st.pc)
+        adv = Struct('$SliceIter', (cont, pos + 1, None))
+        for s_ in (s_yes, s_no):
+            s_.store[r.cell] = I.update(s_.store[r.cell], r.path, adv)
+        cell = ('static', 'bulkexelem:%d' % next(I.frame_counter))
+        s_yes.store[cell] = item[2]
+        I.ev('bulk-exists', fr.fname, t.get('at'), None)
+        return ForkReq(g, s_yes, some(Ref(cell), ty), s_no), st
     if item[0] == 'bulk':
         snap = next(I.snap_counter)
         I.snapshots[snap] = dict(st.store)
@@ -475,7 +488,29 @@ def slice_next(I, st, fr, t, a):
             st.store[cell] = elem
             elem = Ref(cell)
         return some(elem, ty), st
-    raise from_undecided()('iteration over conditional item %r' % (item,))
+    if item[0] == 'cond':
+        # the element is present only under its gate: split the execution here
+        from .mai import ForkReq, State
+        inner = item[2]
+        g = item[1]
+        while inner[0] == 'cond':
+            g = B.band(g, inner[1])
+            inner = inner[2]
+        if inner[0] != 'elem':
+            raise from_undecided()('iteration over conditional bulk item')
+        s_yes = State(dict(st.store), st.pc)
+        s_no = State(dict(st.store), st.pc)
+        adv = Struct('$SliceIter', (cont, pos + 1, 'owned' if owned else None))
+        for s_ in (s_yes, s_no):
+            s_.store[r.cell] = I.update(s_.store[r.cell], r.path, adv)
+        if owned:
+            elem = inner[1]
+        else:
+            cell = ('static', 'condelem:%d' % next(I.frame_counter))
+            s_yes.store[cell] = inner[1]
+            elem = Ref(cell)
+        return ForkReq(g, s_yes, some(elem, ty), s_no), st
+    raise from_undecided()('iteration over item %r' % (item,))
 
 
 def finalize_bulk(I, st, snap, item, fr):
